@@ -98,7 +98,7 @@ class H:
                  cbmc=(), fp=None, caps=None, objbits=12, leak=False, alloc=False, models=(),
                  timeout=None, note='', inputs='', bounds='', incdirs=(), src_defines=(),
                  unconfirmed_ok=(), functions=(), maxdeepen=None, extra_srcs=(), unwind_default=1,
-                 solver=None, nowitness=False, exclude=None, roots=None, partial_deepen=False, snapshot=False):
+                 solver=None, nowitness=False, exclude=None, roots=None, partial_deepen=False, snapshot=False, model_defines=()):
         self.name = name
         self.src = src                      # path relative to /verif/harness
         self.sources = list(sources)        # repo-relative C files
@@ -127,6 +127,7 @@ class H:
         self.nowitness = nowitness
         self.partial_deepen = partial_deepen
         self.snapshot = snapshot
+        self.model_defines = list(model_defines)
         self.roots = roots                  # root descriptor objects for table reachability
         self.exclude = exclude              # regex: functions never offered as function-pointer targets
 
@@ -608,7 +609,7 @@ class Replayer:
             for (path, fl) in build['units']:
                 if build.get('model_files') and path in build['model_files'] and not build['model_files'][path]:
                     continue
-                have.add(os.path.basename(path))
+                have.add(re.sub(r'^wrap_\d+_', '', os.path.basename(path)))
                 todo.append((path, [x for x in fl if not x.startswith('-D__builtin_nanf')]))
             if h.gen or any(s.startswith('skeletons/') for s in h.sources):
                 # complete the native link with the rest of the skeleton library
@@ -764,7 +765,7 @@ class Engine:
         for m in models:
             f, in_replay = MODELS[m]
             p = os.path.join(COMMON, f)
-            units.append((p, gen_incs + incs))
+            units.append((p, gen_incs + incs + list(h.model_defines)))
             model_files[p] = in_replay
         hflags = gen_incs + incs + list(h.defines)
         return {'units': units, 'hflags': hflags, 'model_files': model_files}
@@ -890,8 +891,8 @@ class Engine:
             if h.snapshot:
                 bounds.update(build.get('snapshot_bounds', {}))
             objbits = max(h.objbits, hint.get('objbits', 0))
-            qcap = h.timeout or (240 if self.tier == 'quick' else 1800)
-            dcap = h.maxdeepen or (600 if self.tier == 'quick' else 2400)
+            qcap = h.timeout or (600 if self.tier == 'quick' else 1800)
+            dcap = h.maxdeepen or (900 if self.tier == 'quick' else 2400)
             if not hint.get('unwindset') and not hint.get('nodeepen'):
                 bounds = dict(self.pool, **bounds)
                 ok, info = deepen(h, gb, bounds, time.time() + dcap, objbits, logf)
